@@ -34,4 +34,46 @@ theorem fields_written_only_by_constructors :
     ((Gen.Facts.writes.filter (fun w => w.2.1 == "field" && !(w.2.2.2 == "constructor" || w.2.2.2 == "setter"))).map (fun w => (w.1, w.2.2.1)) ==
     ([] : List (String × String))) = true := by decide +kernel
 
+/-- `EightChar.sect` — the day-boundary school of the eight-character object that a lunar date shares with its callers, the only
+caller-settable state hanging off a date object (`SetSect`) — is READ, transitively, only by the eight-character object's own
+day-pillar-dependent accessors and by the `Lunar.GetBaZi*` views of that object. Any other accessor of a date (an almanac attribute, a
+nine star, a Taoist / Buddhist day class …) that starts consulting the shared object appears in this list: its value would then
+depend on an earlier setter call, which no sweep over freshly built objects can observe. -/
+theorem eightchar_school_readers :
+    (((Gen.Facts.readSets.filter (fun r => r.2.1.contains "EightChar.sect")).map (fun r => r.1)) ==
+    ["calendar.EightChar.GetDay",
+     "calendar.EightChar.GetDayDiShi",
+     "calendar.EightChar.GetDayGan",
+     "calendar.EightChar.GetDayGanIndex",
+     "calendar.EightChar.GetDayHideGan",
+     "calendar.EightChar.GetDayNaYin",
+     "calendar.EightChar.GetDayShiShenZhi",
+     "calendar.EightChar.GetDayWuXing",
+     "calendar.EightChar.GetDayXun",
+     "calendar.EightChar.GetDayXunKong",
+     "calendar.EightChar.GetDayZhi",
+     "calendar.EightChar.GetDayZhiIndex",
+     "calendar.EightChar.GetMonthDiShi",
+     "calendar.EightChar.GetMonthShiShenGan",
+     "calendar.EightChar.GetMonthShiShenZhi",
+     "calendar.EightChar.GetSect",
+     "calendar.EightChar.GetTaiXi",
+     "calendar.EightChar.GetTaiXiNaYin",
+     "calendar.EightChar.GetTimeDiShi",
+     "calendar.EightChar.GetTimeShiShenGan",
+     "calendar.EightChar.GetTimeShiShenZhi",
+     "calendar.EightChar.GetYearDiShi",
+     "calendar.EightChar.GetYearShiShenGan",
+     "calendar.EightChar.GetYearShiShenZhi",
+     "calendar.EightChar.String",
+     "calendar.Lunar.GetBaZi",
+     "calendar.Lunar.GetBaZiNaYin",
+     "calendar.Lunar.GetBaZiShiShenDayZhi",
+     "calendar.Lunar.GetBaZiShiShenGan",
+     "calendar.Lunar.GetBaZiShiShenMonthZhi",
+     "calendar.Lunar.GetBaZiShiShenTimeZhi",
+     "calendar.Lunar.GetBaZiShiShenYearZhi",
+     "calendar.Lunar.GetBaZiShiShenZhi",
+     "calendar.Lunar.GetBaZiWuXing"]) = true := by decide +kernel
+
 end Props.Purity
